@@ -7,8 +7,11 @@
     every step of the acyclic automaton).  Components: one call of the online
     toposort terminates without panic on closed graphs (the builder's driver);
     the repaired default retain_keys never panics on prerequisite-closed key
-    sets for the string and matrix maps.  Construction as a whole, and matching
-    on port graphs, are decided by exploration: every generated
+    sets for the string and matrix maps.  Port graphs (modelled host side):
+    [c08_portgraph_run_no_panic], [c08_portgraph_run_total].  The baselines on
+    strings and matrices: [c08_string_single_total], [c08_matrix_single_total],
+    [c08_string_naive_total], [c08_matrix_naive_total].  Construction as a
+    whole is decided by exploration: every generated
     and degenerate case of every other property is run under catch_unwind
     (overflow and debug assertions enabled) with a wall-clock limit, and the
     Ok/Panic status of the model's traversal on the dumped automaton is compared
@@ -16,7 +19,8 @@
 From PM Require Import Model.Prelude Model.Domain Model.BindMaps Model.DomString Model.DomMatrix
   Model.Automaton Model.Traversal Cert.WfCheck Cert.ExampleAut
   Model.Toposort Proofs.ToposortProofs Proofs.BindMapHistories Proofs.BindMapMatrixProofs Proofs.StringTotal Proofs.MatrixTotal Cert.CharCert
-  Model.DomPGKeys Model.DomPG Proofs.RunTotal Proofs.PGTotal.
+  Model.DomPGKeys Model.DomPG Proofs.RunTotal Proofs.PGTotal Proofs.PGTerminates
+  Model.Matchers Proofs.SingleTotalDomains.
 
 Theorem c08_toposort_next_total_partial :
   forall g order, t_closed g ->
@@ -47,13 +51,46 @@ Proof. exact m_run_total. Qed.
 
 (** port graphs (modelled host side): matching never reaches a panic site — in
     particular never the [expect] of root_candidates.rs free_ports, because every
-    bound AlongPath key has its root bound; termination is not proved for this
-    domain (exploration) *)
+    bound AlongPath key has its root bound *)
 Theorem c08_portgraph_run_no_panic :
   forall (A : automaton pgkey pgpred) (rk : list (N * nat)) (ids : list N) (h : pghost) (fuel : nat),
     wf_check pg_dom A rk ids = true -> arity_ok pg_dom A = true ->
     match run pg_dom fuel A h with Panic _ => False | _ => True end.
 Proof. exact pg_run_no_panic. Qed.
+
+(** port graphs: and it terminates — for every host there is a fuel bound beyond
+    which [run] returns [Ok] (the number of candidates of one bind_all is bounded:
+    a PathRoot key offers at most one node per (known root, port), see
+    Proofs/PGTerminates.v) *)
+Theorem c08_portgraph_run_total :
+  forall (A : automaton pgkey pgpred) (rk : list (N * nat)) (ids : list N) (h : pghost),
+    wf_check pg_dom A rk ids = true -> arity_ok pg_dom A = true ->
+    exists fuel0, forall fuel, (fuel0 <= fuel)%nat -> exists ms, run pg_dom fuel A h = Ok ms.
+Proof. exact pg_run_total. Qed.
+
+(** the baselines (SinglePatternMatcher::get_all_bindings, hence match_exists, and
+    NaiveManyMatcher) on the constraints of every string / matrix pattern: never a
+    panic site, and termination (the fuel covers both the FIFO loop and the
+    missing_bindings calls inside it) *)
+Theorem c08_string_single_total :
+  forall (p : spattern) (h : shost),
+    exists fuel0, forall fuel, (fuel0 <= fuel)%nat -> exists r, single string_dom fuel (s_cvec p) h = Ok r.
+Proof. exact s_single_total. Qed.
+
+Theorem c08_matrix_single_total :
+  forall (p : mpattern) (h : mhost),
+    exists fuel0, forall fuel, (fuel0 <= fuel)%nat -> exists r, single matrix_dom fuel (m_cvec p) h = Ok r.
+Proof. exact m_single_total. Qed.
+
+Theorem c08_string_naive_total :
+  forall (pats : list spattern) (h : shost),
+    exists fuel0, forall fuel, (fuel0 <= fuel)%nat -> exists ms, naive string_dom fuel (map s_cvec pats) h = Ok ms.
+Proof. exact s_naive_total. Qed.
+
+Theorem c08_matrix_naive_total :
+  forall (pats : list mpattern) (h : mhost),
+    exists fuel0, forall fuel, (fuel0 <= fuel)%nat -> exists ms, naive matrix_dom fuel (map m_cvec pats) h = Ok ms.
+Proof. exact m_naive_total. Qed.
 
 Example c08_example :
   wf_check string_dom ex_aut (compute_rank ex_aut) [0; 1; 2]%N = true /\ arity_ok string_dom ex_aut = true.
@@ -63,5 +100,10 @@ Print Assumptions c08_toposort_next_total_partial.
 Print Assumptions c08_string_run_total.
 Print Assumptions c08_matrix_run_total.
 Print Assumptions c08_portgraph_run_no_panic.
+Print Assumptions c08_portgraph_run_total.
+Print Assumptions c08_string_single_total.
+Print Assumptions c08_matrix_single_total.
+Print Assumptions c08_string_naive_total.
+Print Assumptions c08_matrix_naive_total.
 Print Assumptions c08_string_retain_total_partial.
 Print Assumptions c08_matrix_retain_total_partial.
